@@ -236,6 +236,10 @@ def _zip_longest(fr, args, kwargs):
 
 def method_call(fr, obj, name, args, kwargs):
     c = cur()
+    if isinstance(obj, Obj) and obj.fields.get("__recorder__"):
+        # effect recorder (matplotlib Axes): the call is appended to the object's trace
+        obj.fields["calls"].append((name, tuple(args), dict(kwargs)))
+        return Opaque("artist", name)
     if isinstance(obj, Arr):
         return arr_method(fr, obj, name, args, kwargs)
     if isinstance(obj, list):
@@ -783,3 +787,24 @@ def _eigvals(fr, args, kwargs):
     nan = sym.Or_(a00.nan, a01.nan, a11.nan)
     c.fact(z3.Implies(z3.Not(sym.zb(nan)), z3.And(l0 + l1 == a00.v + a11.v, l0 * l1 == a00.v * a11.v - a01.v * a10.v)), heavy=True)
     return N.asarray([F(nan, l0), F(nan, l1)])
+
+
+# ----------------------------------------------------------------------------------
+# matplotlib: figures are opaque, Axes are effect recorders (DESIGN A10)
+# ----------------------------------------------------------------------------------
+
+def new_axes():
+    c = cur()
+    ax = Obj("mpl.Axes", {"__recorder__": True, "calls": Seq(0, lambda k: None)})
+    c.memo.setdefault("ghost:axes", []).append(ax)
+    return ax
+
+
+@model("matplotlib.pyplot.subplots")
+def _subplots(fr, args, kwargs):
+    return (Opaque("figure"), new_axes())
+
+
+@model("matplotlib.pyplot.tight_layout", "matplotlib.pyplot.show", "matplotlib.pyplot.close")
+def _plt_noop(fr, args, kwargs):
+    return None
